@@ -170,6 +170,10 @@ def s_configure(rng):
         del op['model']
     if op['op'] == 'configure' and maybe(rng, 0.3):
         op['via'] = 'public'   # penman.configure
+    if g.triples and maybe(rng, 0.12):
+        # the graph object was inspected and encoded while one triple still had another source,
+        # then edited in place (same number of triples)
+        op['editedFrom'] = [rng.randrange(len(g.triples)), rng.choice(['q', 'zz'] + gen.VARS)]
     return op
 
 
@@ -533,6 +537,22 @@ def x_parse(alphabet, maxlen):
 
 
 TOKEN_CLASS = ['(', ')', '/', ':r', 'a', '"s"', '~1', '#c\n', '\\']
+
+
+def x_blocks(maxk, mink=8):
+    """streams whose token count reaches 2**k exactly at a graph boundary and goes on (buffer and block
+    sizes are powers of two): graphs of 8 and of 16 tokens, read by loads and by iterparse"""
+    g8 = '# ::id {i}\n(a / alpha :ARG0 b)\n\n'                                   # 1 + 7 tokens
+    g16 = '# ::id {i}\n# ::snt x\n# ::k v\n(a / alpha :ARG0 (b / beta) :ARG1 b)\n\n'   # 3 + 13 tokens
+    for k in range(mink, maxk + 1):
+        for per, g in ((8, g8), (16, g16)):
+            n = 2 ** k // per + 3
+            if per == 16 and k > 14:
+                continue
+            s = ''.join(g.format(i=i) for i in range(n))
+            yield {'op': 'loads', 's': s, 'model': 'default'}
+            if k <= 13:
+                yield {'op': 'iterparse', 's': s}
 
 
 def x_token_seqs(maxlen, ops_=('parse', 'iterparse')):
